@@ -89,7 +89,13 @@ def run_catalog(cases, shards=12):
     lines = [json.dumps(c) for c in cases]
     tres, tcr = treecorr.run_isolated(os.path.join(BUILD, "harness"), ["tree"], lines, shards=shards)
     mlines, msgs = [], {}
+    big = set()
     for c in cases:
+        # the executable model indexes the file as a list: scanning is quadratic in the file size;
+        # files above 12 KB are left to the scanner-level checks
+        if sum(len(h) // 2 for h in c["files"].values()) > 12000:
+            big.add(c["id"])
+            continue
         ml, ms = treecorr.model_line(c, tres.get(c["id"], {}))
         for b in c.get("banned", []):
             ml += " B:%s" % b.encode().hex()
@@ -100,7 +106,7 @@ def run_catalog(cases, shards=12):
     for l in mout:
         r = json.loads(l)
         mres[r["id"]] = r
-    mism, skipped = [], 0
+    mism, skipped = [], len(big)
     for c in cases:
         cid = c["id"]
         b, m = bres.get(cid), mres.get(cid)
